@@ -34,7 +34,7 @@ Lifted(t, u, step, sc, relaxed) ==
     /\ u.instr = t.instr /\ Len(u.bars) = Len(t.bars)
     /\ \A bi \in 1..Len(t.bars) :
          LET b == t.bars[bi] c == u.bars[bi] IN
-         /\ c.key = b.key /\ c.meter = b.meter /\ c.len = b.len /\ c.cur = b.cur /\ Len(c.entries) = Len(b.entries)
+         /\ c.meter = b.meter /\ c.len = b.len      \* (the bar's KEY is not mentioned by the property: a transposition may or may not carry it along) /\ c.cur = b.cur /\ Len(c.entries) = Len(b.entries)
          /\ \A ei \in 1..Len(b.entries) :
               /\ c.entries[ei].at = b.entries[ei].at /\ c.entries[ei].t = b.entries[ei].t
               /\ ContentOk(b.entries[ei].c, c.entries[ei].c, step, InScope(step, bi, ei, sc), relaxed)
